@@ -49,6 +49,22 @@ var glyphServerWeave = []weave.PkgConfig{
 }
 
 var specs = map[string]*propSpec{
+	"C14": {
+		ID: "C14", Title: "database transactions are all-or-nothing",
+		TestPkg: "pkg/database", HarnessDir: "C14",
+		QuickSecs: 40, ThoroughSecs: 480, Chunk: 50,
+		Rule: "each run generates 1-4 back-to-back transactions of 0-6 statements (insert, update, delete, insert violating a unique constraint, select; callbacks that return or ignore statement errors) and executes the whole sequence once per (fault kind, position): callback error / panic / context cancel / deadline expiry on the fake clock at every statement boundary, nested transaction with a deadline, and driver-level faults from a wrapper around the real sqlite driver (Exec error, ErrBadConn, BeginTx error, Commit error before and after applying, Rollback error) - quick sweeps a seeded subset of kinds, thorough all of them; plus one bulk insert with a seeded violating row and, on the Postgres-struct backend, ORM.Transaction; after every transaction the table read through a fault-free query must equal the reference map (all effects or none) and a fault-free transaction must succeed within 5 simulated seconds; evaluations = runs (each run = dozens of executions, counted in coverage.executions); a run is non-trivial if at least one fault fired; distinct = distinct fingerprints of workload and fault tapes",
+		Components: []component{
+			{"pkg/database SQLiteDB/PostgresDB/MySQLDB.Transaction, BulkInsert, ORM.Transaction/Create", "real-unwoven", "driven through their public methods; Postgres/MySQL structs are built over the sqlite handle (their Transaction code is driver-agnostic)"},
+			{"database/sql pool and context handling", "real-unwoven", ""},
+			{"modernc sqlite (in-memory and file databases)", "real-unwoven", "behind the fault-injecting driver wrapper"},
+			{"SQL driver", "stub", "fault-injecting wrapper forwarding to the real driver"},
+			{"PostgreSQL / MySQL servers", "not-run", "no network; dialect-specific BulkInsert runs only where SQLite accepts the syntax"},
+			{"clock, context deadlines", "stub", "testing/synctest fake clock"},
+		},
+		FaultKinds: []string{"cb-error", "cb-panic", "ctx-cancel", "deadline", "nested-deadline", "exec", "badconn", "begin", "commit-before", "commit-after", "rollback"},
+		Assumptions: []string{"no cooperative scheduling is involved: this is a sequential fault-sequence simulation inside a synctest bubble"},
+	},
 	"C15": {
 		ID: "C15", Title: "JIT tiering and caching are invisible",
 		TestPkg: "pkg/jit", HarnessDir: "C15",
